@@ -11,7 +11,7 @@ CONSTANTS
   Machines = {3}
   Types = {2}
   PTypes = {1}
-  Layouts = {1, 4}
+  Layouts = {4}
   Pads = {0}
   Kinds = {"bits", "nobits"}
   SymChoices = {TRUE, FALSE}
